@@ -445,8 +445,9 @@ def r6_streams_and_text_ranges(ctx):
     _optional_int_formatter(ctx)
 
 
-from ..through_time import make_rule as _mk_tt
+from ..through_time import make_rule as _mk_tt, make_t2 as _mk_t2
 _through_time = _mk_tt("C03")
+_small_edits = _mk_t2("C03")
 
 def _selection_tables(ctx):
     from .c04 import r2_aligned_stores
@@ -470,6 +471,7 @@ RULES = [
     ("C03-R5", r5_mode_suffix_tables),
     ("C03-R6", r6_streams_and_text_ranges),
     ("C03-T1", _through_time),
+    ("C03-T2", _small_edits),
     ("C03-R7", _selection_tables),
     ("C03-R8", _lazy_concatenate),
     ("C03-R9", _shared_tables_not_written),
